@@ -211,8 +211,13 @@ func EvalString(this any, code string, emptyEnv bool) (object.Object, error) {
 		if ok {
 			maxDepth = evalState.MaxDepth // in case it's lower, carry that lower value.
 		}
+		var ctx context.Context
+		if ok {
+			ctx = evalState.Context // and the deadline of the caller: unjson("for true {}") must end with it.
+		}
 		evalState = NewBlankState()
 		evalState.MaxDepth = maxDepth
+		evalState.Context = ctx
 	} else {
 		if !ok {
 			return object.NULL, fmt.Errorf("invalid this: %T", this)
